@@ -25,7 +25,7 @@ func init() {
 				"arguments. With R1-R4, for every device: delivered + held = recorded, by induction over the critical sections (each " +
 				"either adds one to held, moves held to in-flight, delivers in-flight, or adds in-flight back to held).",
 			NotCovered: "the induction over interleavings itself is a paper argument, not mechanised; the uploader's own behaviour.",
-			Rules: map[string]string{"C16-R19": "pooled per-request state is fully re-initialised (request info, filtering context; shared with C07-R1): a query is not billed to the device of the request that used the object before, and a debug flag of an earlier query does not make later ones skip billing", "C16-R18": "initGRPCMetrics creates the backend gRPC metrics whenever profiles (and so the billing uploader) are enabled (table shared with C20-R19)", "C16-R17": "geoip.ipToCacheKey returns keys of different types for IPv4 (/24) and IPv6 (/56) networks, so the two families never share a cache entry", "C16-R15": "geoip.File.Refresh clears its caches after installing the new databases, so billing records do not keep the previous database's country and ASN (shared with C05-R10)", "C16-R16": "every transport samples the request's start time after the message has been read", "C16-RC": "class rules (error chains, shadowed results, character classes, crossed arguments, pool constructors, array pools, loop completeness, loop-carried buffers, replacing setters, complete clones, Grow arithmetic, pooled-buffer escape, sorted searches, fresh decode targets, per-iteration objects, whole-message copies, codec guards) over the packages this property rests on", "C16-R14": "the error-class enums declared in backendpb and in metrics agree, and the metrics switches (panicking default) have a case for each value", "C16-R13": "request information attached to a context inside an accept/stream loop is allocated in that iteration; pool constructors build fresh objects", "C16-R12": "the periodic worker that uploads billing records, incl. the final upload on shutdown before the worker stops (shared rule, see C13-R11)", "C16-R11": "a request is served and billed once; the billed location is the one of the client's own address (tables shared with C09-R1 and C05-R5)", "C16-R1": "records only under mu", "C16-R2": "Refresh: upload what was reset, remerge iff failed",
+			Rules: map[string]string{"C16-R20": "a query whose answer was written is recorded: in mainmw.Wrap every path from the success edge of the final WriteMsg to a return passes recordQueryInfo (nothing else, a look at the context for instance, can end the request in between)", "C16-R19": "pooled per-request state is fully re-initialised (request info, filtering context; shared with C07-R1): a query is not billed to the device of the request that used the object before, and a debug flag of an earlier query does not make later ones skip billing", "C16-R18": "initGRPCMetrics creates the backend gRPC metrics whenever profiles (and so the billing uploader) are enabled (table shared with C20-R19)", "C16-R17": "geoip.ipToCacheKey returns keys of different types for IPv4 (/24) and IPv6 (/56) networks, so the two families never share a cache entry", "C16-R15": "geoip.File.Refresh clears its caches after installing the new databases, so billing records do not keep the previous database's country and ASN (shared with C05-R10)", "C16-R16": "every transport samples the request's start time after the message has been read", "C16-RC": "class rules (error chains, shadowed results, character classes, crossed arguments, pool constructors, array pools, loop completeness, loop-carried buffers, replacing setters, complete clones, Grow arithmetic, pooled-buffer escape, sorted searches, fresh decode targets, per-iteration objects, whole-message copies, codec guards) over the packages this property rests on", "C16-R14": "the error-class enums declared in backendpb and in metrics agree, and the metrics switches (panicking default) have a case for each value", "C16-R13": "request information attached to a context inside an accept/stream loop is allocated in that iteration; pool constructors build fresh objects", "C16-R12": "the periodic worker that uploads billing records, incl. the final upload on shutdown before the worker stops (shared rule, see C13-R11)", "C16-R11": "a request is served and billed once; the billed location is the one of the client's own address (tables shared with C09-R1 and C05-R5)", "C16-R1": "records only under mu", "C16-R2": "Refresh: upload what was reset, remerge iff failed",
 				"C16-R3": "remerge: insert or add counts", "C16-R4": "Record: new=1, existing+1, metadata from arguments",
 				"C16-R6": "resetRecords hands out the old map and installs a fresh one on every path; recordToProtobuf copies count, device, country, ASN, protocol and time unchanged",
 				"C16-R8": "wiring: the recorder installed for the request path is the one the refresh worker flushes; that worker flushes once more on shutdown and is registered with the signal handler",
@@ -34,10 +34,13 @@ func init() {
 }
 
 func runC16(c *an.Ctx) {
+	// ---- R20: an answered query is always recorded
+	c.Floor("C16-R20", 1)
+	c16AnsweredIsRecorded(c, "C16-R20")
 	// ---- R19: pooled request state starts empty (shared with C07-R1)
 	c.Floor("C16-R19", 2)
 	c.Borrow("C16-R19", runC07, func(o an.Obligation) bool {
-		return o.Rule == "C07-R1" && (strings.Contains(o.Key, "newRequestInfo") || strings.Contains(o.Key, "newFilteringContext"))
+		return o.Rule == "C07-R1" && (strings.Contains(o.Key, "newRequestInfo") || strings.Contains(o.Key, "newFilteringContext") || strings.Contains(o.Key, "addRequestInfo"))
 	})
 	// ---- R18: the uploader's gRPC metrics exist whenever profiles are enabled (shared with C20-R19)
 	c.Floor("C16-R18", 1)
@@ -612,4 +615,58 @@ func c16CacheKeyFamilies(c *an.Ctx, rule string) {
 	sort.Strings(ts)
 	c.Check(iface && len(ts) >= 2, rule, key, fn.Pos(), "the key is an interface value of "+strings.Join(ts, " or ")+", one type per address family",
 		"the key has one type for both families ("+strings.Join(ts, ", ")+"): an IPv4 /24 and the IPv6 /56 with the same leading bytes share a cache entry, so one network's country and ASN are reported for the other")
+}
+
+// c16AnsweredIsRecorded: billing counts queries in recordQueryInfo, which mainmw
+// calls after the response has been written.  From the success edge of that
+// write every path to a return passes the call; an extra exit in between makes
+// answered queries uncounted (neither delivered nor held).
+func c16AnsweredIsRecorded(c *an.Ctx, rule string) {
+	k := "dnssvc/internal/mainmw.(*Middleware).Wrap$1"
+	fn := c.Prog.Fn(k)
+	key := k + " records every query it has answered"
+	if fn == nil {
+		c.Und(rule, key, token.NoPos, "anchor not found")
+		return
+	}
+	c.Analysed(k)
+	var record ssa.CallInstruction
+	for _, call := range an.Calls(fn) {
+		if strings.HasSuffix(an.CalleeName(call), "mainmw.Middleware).recordQueryInfo") {
+			record = call
+		}
+	}
+	if record == nil {
+		c.Und(rule, key, fn.Pos(), "no recordQueryInfo call")
+		return
+	}
+	// the last WriteMsg that can reach the record step
+	var write *ssa.Call
+	for _, call := range an.Calls(fn) {
+		cv, ok := call.(*ssa.Call)
+		if ok && call.Common().IsInvoke() && call.Common().Method.Name() == "WriteMsg" && an.CanReach(call, record) {
+			write = cv
+		}
+	}
+	if write == nil {
+		c.Und(rule, key, fn.Pos(), "no WriteMsg before the record step")
+		return
+	}
+	var errEdges []an.CondEdge
+	for _, b := range fn.Blocks {
+		if ifi, ok := b.Instrs[len(b.Instrs)-1].(*ssa.If); ok {
+			for _, br := range []bool{true, false} {
+				if e := (an.CondEdge{If: ifi, Branch: br}); an.ErrNonNilEdgeOf(e, write) {
+					errEdges = append(errEdges, e)
+				}
+			}
+		}
+	}
+	if len(errEdges) == 0 {
+		c.Und(rule, key, fn.Pos(), "the error test of the write was not recognised")
+		return
+	}
+	leak := exitAvoiding(write, errEdges, func(in ssa.Instruction) bool { return in == ssa.Instruction(record) })
+	c.Check(!leak, rule, key, write.Pos(), "recordQueryInfo lies on every path from a successful write to a return",
+		"a path returns after the response has been written without recording the query: the client was served and the query is in no billing record")
 }
